@@ -29,6 +29,29 @@ Theorem C05_driver_stops : forall t ok,
 Proof. exact driver_stops. Qed.
 Print Assumptions C05_driver_stops.
 
+(* the same for the WHOLE front end and with no hypothesis on the other phases: whatever the outcome function, if the lexer,
+   the parser, import processing or the type check fails, every tool invocation ends with exit non-zero, a diagnostic, no
+   artifact, nothing executed (the first of the four to fail stops the driver; nothing in front of it writes or runs) *)
+Theorem C05_driver_stops_front : forall t ok,
+  ok PLex && ok PParse && ok PImports && ok PTypeCheck = false ->
+  run_tool t ok = {| o_exit_nonzero := true; o_artifact := false; o_executed := false; o_diag := true |}.
+Proof. exact driver_stops_front. Qed.
+Print Assumptions C05_driver_stops_front.
+
+(* read the other way round: an artifact on disk, or any execution of program code, implies the whole front end accepted *)
+Theorem C05_artifact_or_exec_needs_front : forall t ok,
+  o_artifact (run_tool t ok) = true \/ o_executed (run_tool t ok) = true ->
+  ok PLex = true /\ ok PParse = true /\ ok PImports = true /\ ok PTypeCheck = true.
+Proof. exact artifact_or_exec_needs_front. Qed.
+Print Assumptions C05_artifact_or_exec_needs_front.
+
+(* exit status 0 is never reported for a program the front end refused *)
+Theorem C05_exit_zero_needs_front : forall t ok,
+  o_exit_nonzero (run_tool t ok) = false ->
+  ok PLex = true /\ ok PParse = true /\ ok PImports = true /\ ok PTypeCheck = true.
+Proof. exact exit_zero_needs_front. Qed.
+Print Assumptions C05_exit_zero_needs_front.
+
 (* type checker: every error diagnostic fails the compilation in its block, returns a failing value to its caller, or is
    a triaged site (finding with a program, or justified) *)
 Theorem C05_all_error_sites_flagged : forallb site_ok diag_sites = true.
